@@ -26,7 +26,7 @@ RULE = ("coarsen_bins: every valid bin table with 1 chromosome of length <=7 and
         "coarsen_cooler: corpus (D1 longer-last-bin tables, chromosomes shorter than k, empty cooler, empty rows at chunk edges, variable tables whose coarsening looks fixed, bin size 1, one-bin chromosomes) x k in {2,3,5,n+1} x chunksize in {1,2,7,nnz+1} (all 16 combinations for the first 4 corpus coolers, 2 chunk sizes per k for the others), "
         "seeded random coolers (fixed / variable / longer-last / variable-that-coarsens-to-fixed tables, 1-4 chromosomes, symmetric and square storage, 9 pixel patterns) x all four k x two chunk sizes, "
         "fixed-width tables of EVERY width 1..60 x k in {2,7} and 1..30 x k in {3,5} (thorough: 1..200 x {2,3,5,7}) at function level (chunk stream of CoolerCoarsener vs exact integer division) and end to end for widths 7,49,98,103,107,161,187,196 + random widths <= 2000 with >= 3 coarse bins per chromosome; nproc=2 and the CLI on a few, chains k1;k2 vs k1*k2 (fixed and variable tables), merge/coarsen interleavings, a second value column with agg max/min/sum incl. the D20 corpus (columns=[count,w], columns=[w]); "
-        "every level (copied bases included, k=1) of zoomify_cooler / `cooler zoomify --base-uri` files built from 1, 2 and 3 base coolers in every listing order (bases that are / are not multiples of each other) vs the block aggregation of its own base; fixed parameter scenarios (output URI in a nested group, append into an existing file, same-file in/out, re-run onto an existing group, mode=w, nproc 2/3 with an uneven span count, CLI -p/--append/-a/-o URI, dtypes full/partial dict, lock=, float64 counts, weight bin column on the input, trailing empty rows, CoolerCoarsener batchsize 2/3); non-trivial = nnz>0 and at least 2 old bins; distinct by input hash")
+        "HISTORIES in one process (the same source and destination URI strings while the source file is rewritten in between: re-binned coarser/finer, other chromsizes, variable widths, fewer/more bins, square, nproc 1 then 2 and 2 then 1, several chunk sizes; a hand-made ladder over two alternating file names), every output judged for the data stored now; every level (copied bases included, k=1) of zoomify_cooler / `cooler zoomify --base-uri` files built from 1, 2 and 3 base coolers in every listing order (bases that are / are not multiples of each other) vs the block aggregation of its own base; fixed parameter scenarios (output URI in a nested group, append into an existing file, same-file in/out, re-run onto an existing group, mode=w, nproc 2/3 with an uneven span count, CLI -p/--append/-a/-o URI, dtypes full/partial dict, lock=, float64 counts, weight bin column on the input, trailing empty rows, CoolerCoarsener batchsize 2/3); non-trivial = nnz>0 and at least 2 old bins; distinct by input hash")
 TRUSTED = ["pandas groupby(sort=True).aggregate('sum') is modelled as the canonical aggregate (Model/Pixels.v) and observed through CoolerCoarsener",
            "create() stores the concatenation of the chunk stream (property C01/C02, observed here through the output cooler)",
            "multiprocess.Pool.map is order preserving (source-pattern assertion on coarsen_cooler + nproc=2 runs)"]
@@ -928,9 +928,50 @@ def sc_batchsize(d):
     return None
 
 
+def _read_typed(uri, col="count"):
+    import cooler
+    p = cooler.Cooler(str(uri)).pixels()[:]
+    dt = p[col].dtype
+    conv = float if dt.kind == "f" else int
+    return str(dt), [[int(a), int(b), conv(v)] for a, b, v in zip(p["bin1_id"], p["bin2_id"], p[col])]
+
+
+def sc_reused_argument_objects(d):
+    """regression input of D34 (fixed): the SAME dtypes / agg / columns objects passed to consecutive calls on inputs
+    with different value dtypes; every output must have the dtype and the sums of ITS input, and the caller's
+    objects must be unchanged after each call"""
+    import copy
+    import cooler
+    blocks = blocks_from_widths(P_WIDTHS)
+    src, dst = d / "r_src.cool", d / "r_dst.cool"
+    for dtypes, columns, agg in (({}, ["count"], {}), ({"w": np.dtype("float64")}, ["count", "w"], {"w": "max"})):
+        before = copy.deepcopy((dtypes, columns, agg))
+        for cdt, scale in (("int32", 1), ("float64", 0.25), ("int64", 3), ("float64", 0.5), ("int32", 2)):
+            conv = float if cdt == "float64" else int
+            px = [[p[0], p[1], conv(p[2] * scale)] for p in P_PX]
+            extra = [3, 1, 4, 1, 5, 9, 2, 6, 5] if "w" in columns else None
+            G.make_cooler(src, blocks, px, True, count_dtype=cdt, extra=extra)
+            k = 2 if cdt != "int64" else 3
+            cooler.coarsen_cooler(str(src), str(dst), k, chunksize=2, columns=columns, dtypes=dtypes, agg=agg, mode="w")
+            if (dtypes, columns, agg) != before:
+                return {"what": "coarsen_cooler changed the caller's dtypes/columns/agg objects", "after": repr((dtypes, columns, agg)), "before": repr(before)}
+            dt, got = _read_typed(dst)
+            exp = [[a, b, conv(v)] for a, b, v in G.oracle_pixels(blocks, px, k)]
+            if dt != cdt or got != exp:
+                return {"what": f"reused argument objects: output for a {cdt} input", "stored_dtype": dt, "got": got[:10], "expected": exp[:10]}
+            if "w" in columns:
+                dtw, gotw = _read_typed(dst, "w")
+                px4 = [[p[0], p[1], p[2], w] for p, w in zip(px, extra)]
+                expw = [[a, b, float(v)] for a, b, v in G.oracle_pixels(blocks, px4, k, "max", 3)]
+                if dtw != "float64" or gotw != expw:
+                    return {"what": "reused argument objects: column w", "stored_dtype": dtw, "got": gotw[:10], "expected": expw[:10]}
+    return None
+
+
 SCENARIOS = {"nested/append/same-file/mode": sc_nested_append_samefile, "nproc with uneven span count": sc_nproc_uneven,
              "CLI -p/--append/-o URI": sc_cli_flags, "dtypes dict / lock": sc_dtypes_lock,
-             "float counts, weight column, trailing empty rows": sc_shapes, "CoolerCoarsener batchsize": sc_batchsize}
+             "float counts, weight column, trailing empty rows": sc_shapes, "CoolerCoarsener batchsize": sc_batchsize,
+             "the same dtypes/agg/columns objects reused across calls (D34)": sc_reused_argument_objects}
 
 
 def run_scenario(ctx_tmp, label, table):
@@ -1020,6 +1061,143 @@ def part_multires(ctx):
     return len(cases)
 
 
+# ----------- part 9: HISTORIES in one process: the same source / destination URI strings, files rewritten in between
+def fixed_widths(sizes, b):
+    return [[b] * (L // b) + ([L % b] if L % b else []) for L in sizes]
+
+
+def history_plans(rng, thorough):
+    """each history is a list of steps; a step rewrites the file behind the SAME source URI string (unless
+    'keep') and coarsens it into the SAME destination path; every output is judged for the data stored NOW"""
+    def px(widths, symm, pat=None):
+        n = sum(len(w) for w in widths)
+        return [list(p) for p in G.random_pixels(rng, n, symm, pat or rng.choice(["dense", "sparse", "band", "emptyrows"]))]
+
+    def step(widths, k, cs, nproc=1, symm=True, note="", keep=False, pat=None):
+        return {"widths": widths, "symmetric": symm, "pixels": None if keep else px(widths, symm, pat), "k": k, "chunksize": cs,
+                "nproc": nproc, "note": note, "keep": keep}
+    g1 = [130, 47]
+    rewrite = [
+        step(fixed_widths(g1, 10), 2, 1, note="10 bp", pat="dense"),
+        step(fixed_widths(g1, 20), 2, 2, note="same genome re-binned coarser (fewer bins)", pat="dense"),
+        step(fixed_widths(g1, 20), 3, 7, note="same table, other pixels"),
+        step(fixed_widths(g1, 5), 3, 7, note="re-binned finer (more bins)", pat="band"),
+        step(fixed_widths(g1, 10), 2, 1000, note="back to 10 bp", pat="dense"),
+        step(fixed_widths([60, 30, 25], 10), 2, 1, note="other chromsizes, fewer bins", pat="dense"),
+        step([[3, 8, 4, 6, 9, 2, 2], [5, 1, 7]], 2, 2, note="variable-width bins, fewer bins", pat="dense"),
+        step([[10, 10, 15], [7, 23]], 2, 1, note="variable (longer last bins), fewer bins again", pat="dense"),
+        step(fixed_widths([90, 45], 5), 5, 3, symm=False, note="square storage, more bins", pat="sparse"),
+        step(fixed_widths([90, 45], 15), 2, 1, nproc=1, note="coarser, nproc=1 ...", pat="dense"),
+        step(fixed_widths([90, 45], 15), 2, 1, nproc=2, keep=True, note="... then nproc=2 on the same file"),
+        step(fixed_widths([45, 90], 9), 2, 1, nproc=2, note="rewritten, nproc=2 straight away (workers forked after the earlier calls)", pat="dense"),
+        step(fixed_widths([45, 90], 9), 3, 2, nproc=1, keep=True, note="nproc=1 after nproc=2"),
+    ]
+    if thorough:
+        for _ in range(12):
+            w, kind = G.random_widths(rng, maxbins=9)
+            rewrite.append(step(w, rng.choice([2, 3, 5]), rng.choice([1, 2, 7, 1000]), nproc=rng.choice([1, 1, 2]), symm=rng.random() < 0.6, note="random:" + kind))
+    return {"rewrite the source between calls": rewrite}
+
+
+def history_run(tmpdir, steps, upto=None):
+    """runs the steps in THIS process; returns [(step index, status, result)] for the executed steps"""
+    import cooler
+    src, dst = tmpdir / "h_src.cool", tmpdir / "h_dst.cool"
+    out = []
+    cur = None
+    for i, st_ in enumerate(steps if upto is None else steps[: upto + 1]):
+        blocks = blocks_from_widths(st_["widths"])
+        if not st_["keep"]:
+            cur = st_["pixels"]
+            G.make_cooler(src, blocks, cur, st_["symmetric"])            # same URI string, new content
+
+        def go():
+            cooler.coarsen_cooler(str(src), str(dst), st_["k"], chunksize=st_["chunksize"], nproc=st_["nproc"], mode="w")
+            return G.read_cooler(dst)
+        status, res = G.guarded(go, 60)
+        out.append((i, status, res, cur))
+    for p in (src, dst):
+        if p.exists():
+            os.remove(p)
+    return out
+
+
+def history_ladder_run(tmpdir, case):
+    """a zoom ladder made by hand with two path names used alternately: a -> b -> a -> b ..."""
+    import cooler
+    a, b = tmpdir / "l_a.cool", tmpdir / "l_b.cool"
+    blocks = blocks_from_widths(case["widths"])
+    G.make_cooler(a, blocks, case["pixels"], case["symmetric"])
+    res = []
+    cur, nxt = a, b
+    for k, cs in zip(case["ks"], case["chunksizes"]):
+        def go():
+            cooler.coarsen_cooler(str(cur), str(nxt), k, chunksize=cs, mode="w")
+            return G.read_cooler(nxt)
+        res.append(G.guarded(go, 60))
+        cur, nxt = nxt, cur
+    for p in (a, b):
+        if p.exists():
+            os.remove(p)
+    return res
+
+
+def ladder_bad(case, res):
+    blocks = blocks_from_widths(case["widths"])
+    ktot = 1
+    for j, ((st, r), k) in enumerate(zip(res, case["ks"])):
+        ktot *= k
+        if st != "ok":
+            return {"what": f"ladder step {j}", "exception": st, "type": r}
+        eb, ep = G.oracle_coarsen(blocks, case["pixels"], ktot)
+        if r["bins"] != eb or r["pixels"] != ep:
+            return {"what": f"ladder step {j}: level is not the block aggregation by {ktot} of the original", "pixels": r["pixels"][:20], "expected": ep[:20]}
+    return None
+
+
+def part_history(ctx):
+    thorough = ctx.tier == "thorough"
+    rng = ctx.rng
+    tmpdir = ctx.tmp / "history"
+    tmpdir.mkdir(exist_ok=True)
+    n = 0
+    for name, steps in history_plans(rng, thorough).items():
+        cur = None
+        exprs = []
+        for st_ in steps:
+            if not st_["keep"]:
+                cur = st_["pixels"]
+            exprs.append(model_expr(dict(st_, pixels=cur), st_["nproc"]))
+        model = C.coq_eval(HDR, exprs, tmpdir=ctx.tmp / "historyv")
+        case = {"fn": "history", "name": name, "steps": steps}
+        ctx.case(case, nontrivial=True, kind="history")
+        for (i, status, res, cur), mo in zip(history_run(tmpdir, steps), model):
+            n += 1
+            st_ = steps[i]
+            sub = dict(st_, pixels=cur)
+            tag = f"history step {i} ({st_['note']})"
+            if status != "ok":
+                ctx.compare(tag, case, status, "ok")
+                ctx.fail(case, {"step": i, "note": st_["note"], "exception": status, "type": res}, None)
+                continue
+            ctx.compare(tag + " bins", case, res["bins"], [list(r) for r in mo[0]])
+            ctx.compare(tag + " pixels", case, res["pixels"], [list(p) for p in mo[1]])
+            bad = oracle_check(sub, res)
+            if bad:
+                ctx.fail(case, dict(bad, step=i, note=st_["note"]), None)
+    # ladder by hand over two alternating file names
+    for widths, symm in ((fixed_widths([160, 70], 5), True), ([[3, 8, 4, 6, 9, 2, 2, 5, 5], [5, 1, 7, 2]], False)):
+        nb = sum(len(w) for w in widths)
+        case = {"fn": "history-ladder", "widths": widths, "symmetric": symm, "pixels": [list(p) for p in G.random_pixels(rng, nb, symm, "dense")],
+                "ks": [2, 2, 2, 2] if symm else [2, 3, 2], "chunksizes": [1, 2, 1, 7]}
+        ctx.case(case, nontrivial=True, kind="history")
+        n += len(case["ks"])
+        bad = ladder_bad(case, history_ladder_run(tmpdir, case))
+        if bad:
+            ctx.fail(case, bad, None)
+    return n
+
+
 # ----------------------------------------------------------------------- run
 def run(ctx):
     import time
@@ -1027,7 +1205,7 @@ def run(ctx):
     scopes, times = {}, {}
     for name, fn in (("coarsen_bins_cases", part_bins), ("prune_cases", part_prune), ("api_runs", part_api),
                      ("width_sweep_runs", part_widths), ("chains", part_chain), ("merge_interleavings", part_merge),
-                     ("agg_runs", part_agg), ("param_scenarios", part_params), ("multires_levels", part_multires)):
+                     ("agg_runs", part_agg), ("param_scenarios", part_params), ("multires_levels", part_multires), ("history_steps", part_history)):
         t0 = time.time()
         scopes[name] = fn(ctx)
         times[name] = round(time.time() - t0, 1)
@@ -1041,6 +1219,13 @@ def replay(ctx, case):
     tmpdir = ctx.tmp
     if fn == "param-scenario":
         return run_scenario(tmpdir, case["label"], SCENARIOS) is None
+    if fn == "history":
+        for i, status, res, cur in history_run(tmpdir, case["steps"]):
+            if status != "ok" or oracle_check(dict(case["steps"][i], pixels=cur), res):
+                return False
+        return True
+    if fn == "history-ladder":
+        return ladder_bad(case, history_ladder_run(tmpdir, case)) is None
     if fn.endswith("(every level)"):
         import c09
         st, res, srcs = c09.zoom_run(tmpdir, "replay", case)
